@@ -186,8 +186,8 @@ def r19_2(run):
     for n in cc:
         gd = go.guarded_by(n, lambda t: dotted(t) == 'self.attempted_connect')
         run.ob('R19.2', orv, n.ast, 'the control connection is attempted once', any(lab == 'F' for _, lab in gd), slot='connect-once', message='connection_creator() not guarded by attempted_connect')
-        gd = go.guarded_by(n, lambda t: isinstance(t, ast.Compare) and isinstance(t.ops[0], ast.In) and const(t.left) == b'Opening Control listener')
-        run.ob('R19.2', orv, n.ast, 'only once Tor says the control listener is open', any(lab == 'T' for _, lab in gd), slot='listener-line', message='connect not guarded by the "Opening Control listener" line')
+        run.ob('R19.2', orv, n.ast, 'only once Tor says the control listener is open', established(go, n, 'member', lambda t: const(t.left) == b'Opening Control listener'),
+               slot='listener-line', message='connect not guarded by the "Opening Control listener" line')
         esc = go.escapes(n, lambda x: x.kind == 'stmt' and assign_to(x.ast, 'self.attempted_connect') is not None, exits=go.normal_exits())
         setbefore = any(go.dominates(x, n) for x in go.real_nodes() if x.kind == 'stmt' and assign_to(x.ast, 'self.attempted_connect') is not None and const(assign_to(x.ast, 'self.attempted_connect')) is True)
         run.ob('R19.2', orv, n.ast, 'the attempt is recorded', setbefore or not esc, slot='attempt-recorded', message='attempted_connect not set around the connection attempt')
